@@ -62,6 +62,7 @@ def dispatch (op : String) (j : Json) : Except String Json :=
   | "sum_positions" => Drv.sumPositions j
   | "sum_precheck" => Drv.sumPrecheck j
   | "formula_grade" => Drv.formulaGradeOp j
+  | "formula_pipeline" => Drv.formulaPipelineOp j
   | "varlist" => Drv.varList j
   | _ => .error s!"unknown op {op}"
 
